@@ -46,6 +46,22 @@ def _work(item):
     res['item'] = item
     res['wall'] = time.time() - t0
     v = res.get('viol', [])
+    if len(v) > 20:
+        # known findings: keep a few witnesses per key, count the rest (they never count towards the violation cap)
+        kf = known.Known(_MOD.ID)
+        kept, per_key = [], {}
+        for x in v:
+            e = kf.match(x)
+            if e is None:
+                kept.append(x)
+            else:
+                per_key[e['key']] = per_key.get(e['key'], 0) + 1
+                if per_key[e['key']] <= 3:
+                    kept.append(x)
+                else:
+                    res.setdefault('known_dropped', {})
+                    res['known_dropped'][e['key']] = res['known_dropped'].get(e['key'], 0) + 1
+        v = res['viol'] = kept
     if len(v) > 60:         # keep the pipe to the parent small: the smallest cases of each (kind, cause) survive
         v.sort(key=lambda x: len(repr(x.get('case'))))
         keep, per = [], {}
@@ -166,6 +182,7 @@ def run(mod, args, seed, t0, tree):
     capped = False
     n_new = 0
     dropped = 0
+    known_extra = {}
     kf0 = known.Known(prop)
     ctx = mp.get_context('fork')
     jobs = max(1, min(args.jobs, n_items or 1))
@@ -193,6 +210,8 @@ def run(mod, args, seed, t0, tree):
                     n_new += 1
             errors.extend(res.get('errors', []))
             dropped += res.get('viol_dropped', 0)
+            for k_, n_ in res.get('known_dropped', {}).items():
+                known_extra[k_] = known_extra.get(k_, 0) + n_
             if 'extra' in res:
                 extra.append(res['extra'])
             if len(errors) > 20 or n_new + dropped > 2000:
@@ -250,7 +269,7 @@ def run(mod, args, seed, t0, tree):
         'bounds': mod.bounds(tier, seed) if hasattr(mod, 'bounds') else None,
         'counters': counters,
         'tree': tree,
-        'known_findings_observed': [{'key': k, 'cases': n, 'what': e['what']} for k, (e, n, _) in sorted(seen_known.items())],
+        'known_findings_observed': [{'key': k, 'cases': n + known_extra.get(k, 0), 'what': e['what']} for k, (e, n, _) in sorted(seen_known.items())],
         'new_violation_cases': len(new) + dropped,
     }
     if capped:
@@ -273,7 +292,7 @@ def run(mod, args, seed, t0, tree):
     for k in sorted(counters):
         print('  %-40s %d' % (k, counters[k]))
     for k, (e, n, v) in sorted(seen_known.items()):
-        print('KNOWN-FINDING: property=%s %s [%d cases; key=%s]' % (prop, e['what'], n, k))
+        print('KNOWN-FINDING: property=%s %s [%d cases; key=%s]' % (prop, e['what'], n + known_extra.get(k, 0), k))
     if errors:
         for e in errors[:5]:
             print('HARNESS-ERROR: %s' % e)
